@@ -8,7 +8,7 @@ import concurrent.futures as cf
 import z3
 
 SOLVERS = {
-    'cvc5': lambda f, t: ['cvc5', '--lang', 'smt2', '--tlimit=%d' % int(t * 1000), f],
+    'cvc5': lambda f, t: ['cvc5', '--lang', 'smt2', '--strings-exp', '--tlimit=%d' % int(t * 1000), f],
     'cvc5-int': lambda f, t: ['cvc5', '--lang', 'smt2', '--solve-bv-as-int=sum', '--tlimit=%d' % int(t * 1000), f],
     'z3': lambda f, t: ['/usr/bin/z3', '-T:%d' % int(t), f],
     'z3-new': lambda f, t: ['z3-new', '-T:%d' % int(t), f],
